@@ -104,7 +104,7 @@ pub(crate) mod verif_c09 {
         kani::cover!(r.is_ok() && w > 1 && h > 1);
         kani::cover!(r.is_err());
     }
-    //@harness prop=C09 kind=contract tier=quick class=P bound="buffer length <= 64, sizes <= 65536" fns=src/image/image_raw.rs::ImageRaw::new;src/image/image_raw.rs::ImageRaw::data_width
+    //@harness prop=C09,C08 kind=contract tier=quick class=P bound="buffer length <= 64, sizes <= 65536" fns=src/image/image_raw.rs::ImageRaw::new;src/image/image_raw.rs::ImageRaw::data_width
     #[kani::proof]
     fn c09_new_bpp1() { new_contract::<BinaryColor, LittleEndianMsb0>(); }
     //@harness prop=C09 kind=contract tier=quick class=P bound="buffer length <= 64, sizes <= 65536"
@@ -119,7 +119,7 @@ pub(crate) mod verif_c09 {
     //@harness prop=C09 kind=contract tier=quick class=P bound="buffer length <= 64, sizes <= 65536"
     #[kani::proof]
     fn c09_new_bpp16() { new_contract::<Rgb565, BigEndianLsb0>(); }
-    //@harness prop=C09 kind=contract tier=quick class=P bound="buffer length <= 64, sizes <= 65536"
+    //@harness prop=C09,C08 kind=contract tier=quick class=P bound="buffer length <= 64, sizes <= 65536"
     #[kani::proof]
     fn c09_new_bpp24() { new_contract::<Rgb888, LittleEndianMsb0>(); }
     //@harness prop=C09 kind=contract tier=quick class=P bound="buffer length <= 64, sizes <= 65536"
@@ -139,7 +139,7 @@ pub(crate) mod verif_c09 {
         kani::cover!(r.is_some() && p.y > 0 && p.x > 0);
         kani::cover!(r.is_none() && p.x >= 0 && p.y >= 0);
     }
-    //@harness prop=C09 kind=contract tier=quick class=P bound="image data <= 16 bytes, size <= 8x8, every point" fns=src/image/image_raw.rs::ImageRaw::pixel
+    //@harness prop=C09,C08 kind=contract tier=quick class=P bound="image data <= 16 bytes, size <= 8x8, every point" fns=src/image/image_raw.rs::ImageRaw::pixel
     #[kani::proof]
     #[kani::unwind(6)]
     fn c09_pixel_bpp1_le() { let b: [u8; L] = kani::any(); pixel_contract::<BinaryColor, LittleEndianMsb0>(&b); }
@@ -179,7 +179,7 @@ pub(crate) mod verif_c09 {
     #[kani::proof]
     #[kani::unwind(6)]
     fn c09_pixel_bpp24_le() { let b: [u8; L] = kani::any(); pixel_contract::<Rgb888, LittleEndianMsb0>(&b); }
-    //@harness prop=C09 kind=contract tier=quick class=P bound="image data <= 16 bytes, size <= 8x8, every point"
+    //@harness prop=C09,C08 kind=contract tier=quick class=P bound="image data <= 16 bytes, size <= 8x8, every point"
     #[kani::proof]
     #[kani::unwind(6)]
     fn c09_pixel_bpp24_be() { let b: [u8; L] = kani::any(); pixel_contract::<Rgb888, BigEndianLsb0>(&b); }
@@ -433,7 +433,7 @@ pub(crate) mod verif_c09 {
 
     /// draw_sub_image guard, SubImage area re-basing (nested twice) and Image::with_center: pure geometry
     /// (loop-free): the area that reaches ImageRaw::draw_sub_image is the composed intersection.
-    //@harness prop=C09 kind=contract tier=quick class=P fns=src/image/sub_image.rs::SubImage::new;src/image/sub_image.rs::SubImage::draw_sub_image;src/image/mod.rs::Image::with_center
+    //@harness prop=C09,C08 kind=contract tier=quick class=P fns=src/image/sub_image.rs::SubImage::new;src/image/sub_image.rs::SubImage::draw_sub_image;src/image/mod.rs::Image::with_center
     #[kani::proof]
     #[kani::unwind(6)]
     fn c09_sub_image_geometry() {
